@@ -503,6 +503,33 @@ func ruleNotifyAll(c *Ctx, r *Reporter) {
 			r.bad(key, c.posStr(badPos), "a node is replaced or a watch queued on a path where txn.dirty was not set: Notify will not close the root channel for that change ("+bad+")")
 		}
 	}
+	// (4b) delete: dirty is set only on paths that remove a key
+	if fn := c.Func("part", "Txn", "delete"); fn != nil {
+		var dirty *ssa.Store
+		for _, ia := range allInstrs(fn) {
+			if st, ok := ia.In.(*ssa.Store); ok && isFieldAddrOf(st.Addr, "Txn", "dirty") {
+				dirty = st
+			}
+		}
+		bad := ssa.Instruction(nil)
+		if dirty != nil {
+			for _, ret := range returnsOf(fn) {
+				if !instrReaches(dirty, ret) {
+					continue
+				}
+				if !alwaysTrue(ret.Results[1], map[ssa.Value]bool{}) {
+					bad = ret
+				}
+			}
+		}
+		if dirty == nil {
+			r.bad("part.(Txn).delete|dirty only when a key is removed", c.posStr(fn.Pos()), "delete never marks the transaction dirty")
+		} else if bad != nil {
+			r.bad("part.(Txn).delete|dirty only when a key is removed", c.posStr(instrPos(bad)), "delete marks the transaction dirty on a path that returns hadOld=false: deleting an absent key closes and replaces the root watch channel (spurious wake-up of every table-wide watcher)")
+		} else {
+			r.ok("part.(Txn).delete|dirty only when a key is removed", c.posStr(instrPos(dirty)), "every return reachable after txn.dirty = true reports hadOld=true")
+		}
+	}
 	// (5) root-only mode hands out the root channel
 	for _, name := range []string{"InsertWatch", "ModifyWatch"} {
 		fn := c.Func("part", "Txn", name)
@@ -908,17 +935,27 @@ func ruleTxnReset(c *Ctx, r *Reporter) {
 		return false
 	}
 	reset := map[string]string{}
+	// a reset counts only if nothing but the `prevTxn != nil` test guards it
+	unconditional := func(in ssa.Instruction) bool {
+		for _, f := range factsAt(in.Block()) {
+			if bo, ok := f.Cond.(*ssa.BinOp); ok && isNilConst(bo.Y) && bo.X == recycled {
+				continue
+			}
+			return false
+		}
+		return true
+	}
 	for _, ia := range allInstrs(fn) {
 		switch x := ia.In.(type) {
 		case *ssa.Store:
-			if fa, ok := x.Addr.(*ssa.FieldAddr); ok && isRecycled(fa.X) {
+			if fa, ok := x.Addr.(*ssa.FieldAddr); ok && isRecycled(fa.X) && unconditional(x) {
 				_, f, _ := fieldOf(fa)
 				reset[f] = "assigned"
 			}
 		case *ssa.Call:
 			if b, ok := x.Call.Value.(*ssa.Builtin); ok && b.Name() == "clear" {
 				if addr, ok := isLoad(x.Call.Args[0]); ok {
-					if fa, ok := addr.(*ssa.FieldAddr); ok && isRecycled(fa.X) {
+					if fa, ok := addr.(*ssa.FieldAddr); ok && isRecycled(fa.X) && unconditional(x) {
 						_, f, _ := fieldOf(fa)
 						reset[f] = "cleared"
 					}
@@ -1033,4 +1070,24 @@ func ruleNodeConvert(c *Ctx, r *Reporter) {
 			}
 		}
 	}
+}
+
+// alwaysTrue: the boolean value is the constant true on every incoming edge.
+func alwaysTrue(v ssa.Value, seen map[ssa.Value]bool) bool {
+	if seen[v] {
+		return true
+	}
+	seen[v] = true
+	switch x := v.(type) {
+	case *ssa.Const:
+		return x.Value != nil && x.Value.String() == "true"
+	case *ssa.Phi:
+		for _, e := range x.Edges {
+			if !alwaysTrue(e, seen) {
+				return false
+			}
+		}
+		return true
+	}
+	return false
 }
